@@ -221,6 +221,9 @@ class MNF:
 
     def subscript(self, t):
         base, idx = t[1], t[2]
+        # M[np.ix_(r, c)] is the block M[r, :][:, c]
+        if isinstance(idx, tuple) and idx and idx[0] == "ext" and idx[1] == "numpy.ix_" and len(idx[2]) == 2 and not idx[3]:
+            return self.block(base, idx[2][0], idx[2][1])
         # M[r, :][:, c]  /  M[:, c][r, :]
         if base[0] == "sub" and idx[0] == "tuple" and len(idx[1]) == 2 and base[2][0] == "tuple" and len(base[2][1]) == 2:
             (r1, c1), (r2, c2) = base[2][1], idx[1]
